@@ -30,6 +30,12 @@ func init() {
 }
 
 var c07Mutants = []Mutant{
+	{ID: "C07-lock-order-inverted", Desc: "the NETCONF stores take their two locks in opposite orders (a reply that is also a notification is filed under both)", Rule: "C07/lock-order",
+		Edits: []Edit{{File: "driver/netconf/driver.go", Old: "\td.messagesLock.Lock()\n\tdefer d.messagesLock.Unlock()\n\n\td.messages[i] = b\n", New: "\td.messagesLock.Lock()\n\tdefer d.messagesLock.Unlock()\n\n\td.subscriptionsLock.Lock()\n\t_, isSub := d.subscriptions[i]\n\td.subscriptionsLock.Unlock()\n\n\tif isSub {\n\t\treturn\n\t}\n\n\td.messages[i] = b\n"},
+			{File: "driver/netconf/driver.go", Old: "\td.subscriptionsLock.Lock()\n\tdefer d.subscriptionsLock.Unlock()\n\n\td.subscriptions[i] = append(d.subscriptions[i], b)\n", New: "\td.subscriptionsLock.Lock()\n\tdefer d.subscriptionsLock.Unlock()\n\n\td.messagesLock.Lock()\n\tdelete(d.messages, i)\n\td.messagesLock.Unlock()\n\n\td.subscriptions[i] = append(d.subscriptions[i], b)\n"}}},
+	{ID: "C07-getdepth-relocks", Desc: "Queue.GetDepth calls a helper that takes the read lock again", Rule: "C07/no-reentrant-lock",
+		Edits: []Edit{{File: "util/queue.go", Old: "\tq.lock.RLock()\n\tdefer q.lock.RUnlock()\n\n\treturn q.depth\n}\n", New: "\tq.lock.RLock()\n\tdefer q.lock.RUnlock()\n\n\treturn q.getDepth()\n}\n"},
+			{File: "util/queue.go", Old: "\td := <-q.depthChan\n\tq.depthChan <- d\n\n\treturn d\n", New: "\tq.lock.RLock()\n\tdefer q.lock.RUnlock()\n\n\treturn q.depth\n"}}},
 	{ID: "C07-waitgroup-add-in-goroutine", Desc: "the logging fan-out raises its WaitGroup inside the goroutine it counts", Rule: "C07/waitgroup-add",
 		Edits: []Edit{{File: "logging/logging.go", Old: "\t\twg.Add(1)\n\n\t\tlf := f\n\n\t\tgo func() {\n\t\t\tlf(m)\n\n\t\t\twg.Done()\n\t\t}()", New: "\t\tlf := f\n\n\t\tgo func() {\n\t\t\twg.Add(1)\n\t\t\tdefer wg.Done()\n\n\t\t\tlf(m)\n\t\t}()"}}},
 	{ID: "C07-value-receiver", Desc: "Queue.GetDepth takes the queue by value", Rule: "C07/pointer-receivers",
